@@ -180,4 +180,57 @@ def stopLine (pf : ParseFloat) (text : Str) : Option Nat := stopLineAux pf 1 (ra
 /-- `tableBuffer.Len()` after `route.NewTable(tableBuffer)` on a buffer holding `text` -/
 def leftAfterParse (pf : ParseFloat) (text : Str) : Nat := byteLen text - consumed goCfg text (stopLine pf text)
 
+/-! ## 5. the iteration with its glue AND its buffer -/
+open Fabio.Model.C02Loop
+
+/-- the calls of the loop body (as `C02Loop.Glue`) with `route.NewTable` working on the buffer: its outcome and what
+it leaves unread -/
+structure GlueB (T : Type) where
+  aliases : Text → Outcome (List Str)
+  register : List Str → Outcome Unit
+  newTable : Text → Outcome (Option T)
+  rest : Text → Text
+  log : T → Text → Text → Outcome Unit
+
+/-- forget the buffer -/
+def GlueB.toGlue {T} (g : GlueB T) : Glue T :=
+  { aliases := g.aliases, register := g.register, build := g.newTable, log := g.log }
+
+/-- One iteration of the `default:` loop of `watchBackend` with everything `Model/C02.lean` abstracted from: the
+buffer is reset and filled, `nextTable` is its content, `ParseAliases`/`Register`/`NewTable(tableBuffer)`/`SetTable`/
+`logRoutes` in program order, each call able to panic, `NewTable` leaving `g.rest` of the buffer's content unread. -/
+def stepOB {T} (g : GlueB T) (st : WBB T) (e : Ev) : List (Eff T) × Outcome (WBB T) :=
+  let st1 := st.wb.recv e
+  let b := (((st.buf.reset).writeString st1.svccfg).writeString ['\n']).writeString st1.mancfg
+  let next := b.string
+  if next = st1.lastTable then ([], .ok { wb := st1, buf := b }) else
+  match g.aliases next with
+  | .panic w => ([], .panic w)
+  | .ok al =>
+  match g.register al with
+  | .panic w => ([], .panic w)
+  | .ok () =>
+  match g.newTable b.string with
+  | .panic w => ([.register al], .panic w)
+  | .ok none => ([.register al], .ok { wb := st1, buf := g.rest b.string })
+  | .ok (some t) =>
+    match g.log t st1.lastTable next with
+    | .panic w => ([.register al, .setTable t], .panic w)
+    | .ok () => ([.register al, .setTable t, .logRoutes t st1.lastTable next],
+                 .ok { wb := { st1 with active := t, lastTable := next }, buf := g.rest b.string })
+
+def runOB {T} (g : GlueB T) : WBB T → List Ev → List (Eff T) × Outcome (WBB T)
+  | st, [] => ([], .ok st)
+  | st, e :: es =>
+    match stepOB g st e with
+    | (effs, .panic w) => (effs, .panic w)
+    | (effs, .ok st') => let r := runOB g st' es; (effs ++ r.1, r.2)
+
+/-- the real loop with the Lean models plugged in: `ParseAliases` and `NewTable` modelled, `Register`, `logRoutes` and
+what the scanner leaves in the buffer as parameters -/
+def realGlueB {T} (pf : ParseFloat) (build : Text → Option T) (rest : Text → Text)
+    (register : List Str → Outcome Unit) (log : T → Text → Text → Outcome Unit) : GlueB T :=
+  { aliases := fun s => .ok (registerArg pf s), register := register, newTable := fun s => .ok (build s), rest := rest,
+    log := log }
+
 end Fabio.Model.C02Buf
